@@ -22,6 +22,11 @@ HARNESSES = [
     dict(name="main_tar2sqfs", file="main_tar2sqfs.c", label="proved",
          fp={"destroy": ["in_destroy", "it_destroy"]},
          timeout=300, cases=[dict(id="all", tier="quick")]),
+    dict(name="array_ops", file="array_ops.c", label="proved", unwind=66, timeout=600,
+         cases=[dict(id="init", defines={"OP": 0}, tier="quick"),
+                dict(id="init_copy", defines={"OP": 1}, tier="quick"),
+                dict(id="append", defines={"OP": 2}, tier="quick"),
+                dict(id="set_capacity", defines={"OP": 3}, tier="quick")]),
     dict(name="meta_flush", file="meta_flush.c", label="proved",
          fp=dict(_FP_FILE, do_block="c14_do_block", destroy="c14_obj_destroy"),
          timeout=600, cases=[dict(id="all", tier="quick")]),
